@@ -441,7 +441,7 @@ func init() {
 		ID: "C08", Level: "exploration", Variant: "N", Design: "DESIGN.md §5 C08",
 		Rule:      "Each run drives a document store (library writer -> simulated sink -> stored bytes -> simulated source -> library reader) through 1..4 write/read cycles. Workloads: paragraphs whose values are line sequences (single line, empty, multi-line with runs of 1..4 empty lines, indented lines, leading multi-line marker, trailing newline present or absent) written through Paragraph.WriteTo, an Encoder used repeatedly, or Marshal of a slice; and documents from the C07 generator that are read first and then written. The fault-injecting third injects a short write, ENOSPC or EIO at byte k of the sink.",
 		Run:       runC08,
-		QuickRuns: 150000, QuickSecs: 30, ThoroughRuns: 6_000_000, ThoroughSecs: 900,
+		QuickRuns: 400000, QuickSecs: 30, ThoroughRuns: 6_000_000, ThoroughSecs: 900,
 		Components: map[string]interface{}{
 			"real": []string{"pault.ag/go/debian/control (Paragraph.WriteTo, Encoder.Encode, Marshal, NewParagraphReader, All)"},
 			"stub": []string{"simio.Writer (sink: short write, ENOSPC, EIO)", "simio.Reader (source: delivery schedule)"},
